@@ -59,9 +59,12 @@ fn main() {
     if prop == "gen-show" {
         let seed: u64 = args[2].parse().unwrap();
         let idx: u64 = args[3].parse().unwrap();
-        let set = gen::random_set(seed, 0, idx, &gen::GenOpts::default());
+        let set = if args.len() > 4 { gen::random_set(seed, args[4].parse().unwrap(), idx, &c0235::g_opts_types_pub()) } else { gen::random_set(seed, 0, idx, &gen::GenOpts::default()) };
         let r = set.render();
         print!("{}", r.text);
+        if args.len() > 5 {
+            std::process::exit(0);
+        }
         let run = comp::rasn1(&r.text);
         eprintln!("{}", run.out.brief());
         for w in run.out.warnings() {
@@ -174,6 +177,10 @@ fn main() {
         match c01::warm() {
             Ok(()) => println!("setup: type-check workspace ready ({})", c01::ws_dir().display()),
             Err(e) => println!("setup: type-check workspace not ready (C01 will report inconclusive): {e}"),
+        }
+        match c03der::warm() {
+            Ok(()) => println!("setup: DER runner workspace ready"),
+            Err(e) => println!("setup: DER runner workspace not ready (the DER part of C03 will report inconclusive): {e}"),
         }
         let mut rep = core::Report::default();
         match c20::cli_binary(&mut rep) {
